@@ -30,7 +30,8 @@ fn main() {
     }
     if id == "gen" {
         // debug: print generated grammars of a profile with lelwel's verdict
-        let profs = vcore::checks::c01::all_profiles();
+        let mut profs = vcore::checks::c01::all_profiles();
+        profs.extend(vcore::checks::c04::profiles04());
         let prof = profs.iter().find(|p| p.name == args[2]).cloned().unwrap_or_else(|| vcore::ggen::Profile::full());
         let n: usize = args[3].parse().unwrap();
         let mut runner = vcore::dice::runner(ev::seed_from_env(), 1);
